@@ -133,14 +133,16 @@ pub struct Case {
     pub group: &'static str,
 }
 
-const INPUTS: [&str; 4] = ["empty", "9bytes", "5k-text", "70k-raw"];
+const INPUTS: [&str; 5] = ["empty", "9bytes", "5k-text", "70k-raw", "400k-raw"];
 
 fn input_bytes(i: usize) -> Vec<u8> {
     match i {
         0 => vec![],
         1 => b"abcabcabc".to_vec(),
         2 => gen::build(&[Seg::C(5000)], 1),
-        _ => gen::build(&[Seg::R(70_000)], 1),
+        3 => gen::build(&[Seg::R(70_000)], 1),
+        // larger than the encoder window of the small dictionaries: the window moves while chunks are pending
+        _ => gen::build(&[Seg::R(400_000)], 1),
     }
 }
 
@@ -201,7 +203,7 @@ fn build_cases(thorough: bool) -> Vec<Case> {
         for w in WRITERS {
             for input in 0..INPUTS.len() {
                 // the expensive inputs with the big products only in the thorough tier for G2
-                if !thorough && *g == "dict-nice-depth-mf-mode" && input == 3 && !(o.fast && !o.bt4) {
+                if !thorough && *g == "dict-nice-depth-mf-mode" && input >= 3 && !(o.fast && !o.bt4) {
                     continue;
                 }
                 cases.push(Case { w, o: o.clone(), input, group: g });
@@ -391,7 +393,7 @@ pub fn run(cli: &Cli, rep: &Report) {
     rep.rule(
         "E-enum in child processes: boundary values of every public option field (lc 0..9, lp 0..5, pb 0..5, dict {0,1,4095,4096,4097,65536,u32::MAX-15,u32::MAX}, nice_len {0,1,7,8,273,274}, depth {i32::MIN,-1,0,1,i32::MAX}, \
          preset dictionary {none, empty, 1 byte, > dict}, chunk/block/member size {1, dict-1, dict, u64::MAX}, delta distance {0,1,256,257,u32::MAX}, BCJ start offsets aligned and not, 0..4 pre-filters) as the FULL product inside each \
-         interacting group ({lc,lp,pb}; {dict,nice_len,depth,mf,mode}; {preset,size,dict}; {filters}) with all other fields at defaults, x 7 writers (LZMA +-header, LZMA2, LZMA2-MT, XZ, LZIP, LZIP-MT) x inputs {empty, 9 bytes, 5 KiB text, 70 KiB incompressible}; \
+         interacting group ({lc,lp,pb}; {dict,nice_len,depth,mf,mode}; {preset,size,dict}; {filters}) with all other fields at defaults, x 7 writers (LZMA +-header, LZMA2, LZMA2-MT, XZ, LZIP, LZIP-MT) x inputs {empty, 9 bytes, 5 KiB text, 70 KiB incompressible, 400 KiB incompressible}; \
          oracle: constructor/write/finish returns Err, or the stream decodes with the matching reader to the input; panic/abort/hang = violation; non-trivial = the case ran to a verdict",
     );
     rep.assumption("dictionaries >= 512 MiB are not really allocated (single allocations above 1 GiB are refused by the harness and counted as inconclusive), only the arithmetic leading to them is exercised");
